@@ -163,7 +163,7 @@ Fixpoint parse_node (fuel : nat) (s : str) : option (node * str) :=
                     | None => None
                     end
              end
-           end) (S (length r)) r []
+           end) f r []
       else if c =? 123 then
         (fix entries (g : nat) (s : str) (acc : list (str * node)) : option (node * str) :=
            match g with
@@ -181,7 +181,7 @@ Fixpoint parse_node (fuel : nat) (s : str) : option (node * str) :=
                  end
              | _ => None
              end
-           end) (S (length r)) r []
+           end) f r []
       else None
     end
   end.
